@@ -325,8 +325,6 @@ def run_solver_real(case):
         eo = make_eops(e)
         try:
             if cls == "CStoch":
-                if not tlist:
-                    raise IndexError()
                 _, r, w = fake._run_one_traj(None, fake._prepare_state(St(s0)), tlist, eo)
             elif cls == "CFloquet":
                 r = FMESolver.run(fake, St(s0), tlist, floquet=True, e_ops=eo)
@@ -643,8 +641,16 @@ def run(ctx):
         "times and weights are integers in these models, divisions by num_trajectories and bin "
         "widths are kept symbolic; ill-shaped stochastic records (SIllShaped) are outside the "
         "model (numpy broadcasting not modelled)",
-        "MultiTrajResult sums/weights (C15), NmmcResult trace and merge are not modelled in "
-        "Coq; they are covered by the implementation-level oracle only",
+        "Model/C12_nm.v (MCSolver._run_one_traj both branches, NonMarkovianMCSolver._run_one_traj, "
+        "MultiTrajResult.steady_state) is hand-written; tied by the exact correspondence runs K7/K8 "
+        "(tools/c12_aux.py: the real methods on a subclass with scripted integrator, collapse "
+        "record and martingale; the real steady_state on scripted trajectories); its oracles "
+        "(Section variables): qzero_like, the integrator's collapse record, the weight rescaling, "
+        "the martingale value given a jump record, and the record `prev` left in the martingale "
+        "by whatever ran before (read only by the dark-state branch)",
+        "C12_nm_runs_trace_aligned composes with the NmmcResult model of C15 (Model/C15_nm.v, "
+        "tied to the source by C15's own correspondence)",
+        "MultiTrajResult sums/weights and merge are C15's subject; not modelled here",
     ]
 
     def search(failed, log):
